@@ -88,6 +88,7 @@ func init() {
 			addRow(row, LP, "pairs")
 		}
 		scns = append(scns, c03Races(tier)...)
+		scns = append(scns, c03MultiSourcePanics()...)
 		return scns
 	}
 
@@ -181,6 +182,18 @@ func init() {
 						continue
 					}
 					c.Explore(c12Resub(row, w))
+				}
+				if group != "pairs" {
+					// what the first run went through (word a) must not leak into the second (word b)
+					short := legalN(row, 2)
+					for _, a := range short {
+						for _, b := range short {
+							if h.Word(a) == h.Word(b) || (row.Has(cat.Blocking) && (isOpen(a) || isOpen(b))) {
+								continue
+							}
+							c.Explore(c12ResubAfter(row, a, b))
+						}
+					}
 				}
 				if row.IntChain != nil && group != "pairs" {
 					for _, ws := range wordSets {
